@@ -22,6 +22,16 @@ class Tup:
         return '(%s)' % ', '.join(repr(e) for e in self.elts)
 
 
+class Axis:
+    """an axis list of the reader (ilines / xlines / zslices): only its length is modelled."""
+
+    def __init__(self, k, length):
+        self.k, self.length = k, length
+
+    def __repr__(self):
+        return 'axis%d' % self.k
+
+
 class Opaque:
     def __init__(self, text):
         self.text = text
@@ -399,6 +409,9 @@ class Interp:
             b = self.eval(e.orelse, st, func, selfobj)
             if same(a, b):
                 return a
+            ce = self._cond_equal(e.test, a, b, st, func, selfobj)
+            if ce is not None:
+                return ce
             return Opaque(U(e))
         if isinstance(e, ast.Compare) or isinstance(e, ast.BoolOp):
             t = self.truth(e, st, func, selfobj)
@@ -410,6 +423,37 @@ class Interp:
         if isinstance(e, ast.JoinedStr):
             return Opaque('fstring')
         return Opaque(U(e))
+
+    def _cond_equal(self, test, a, b, st, func, selfobj):
+        """`a if R != 0 else b` with R = X % m (or `== 0` with the branches swapped) as ONE polynomial:
+        V = b + c*(a - b) with the canonical carry c = [R >= 1]; since every low digit of X vanishes when R = 0,
+        c*digit = digit for the digits of R.  (Idiom of pad() and of the outward alignment of bounds.)"""
+        if not (isinstance(a, Poly) and isinstance(b, Poly)):
+            return None
+        t = test
+        if not (isinstance(t, ast.Compare) and len(t.ops) == 1 and isinstance(t.ops[0], (ast.Eq, ast.NotEq)) and
+                isinstance(t.left, ast.BinOp) and isinstance(t.left.op, ast.Mod) and U(t.comparators[0]) == '0'):
+            return None
+        r = self.eval(t.left, st, func, selfobj)
+        if not isinstance(r, Poly) or r.is_zero():
+            return None
+        low = [x for x in r.atoms() if self.T.kind(x) == 'digit']
+        if not low or not r.subst({x: Poly() for x in low}).is_zero():
+            return None
+        if not all(v > 0 for v in r.t.values()):
+            return None
+        gen, spec = (a, b) if isinstance(t.ops[0], ast.NotEq) else (b, a)
+        c = self.T._carry(r - 1)
+        cat = [x for x in c.atoms()]
+        v = spec + c * (gen - spec)
+        # c * digit = digit for the digits of R
+        out = {}
+        for k, coef in v.t.items():
+            names = [x for x, e in k]
+            if any(x in cat for x in names) and any(x in low for x in names):
+                k = tuple((x, e) for x, e in k if x not in cat)
+            out[k] = out.get(k, 0) + coef
+        return Poly(out)
 
     def eval_index(self, s, st, func, selfobj):
         if isinstance(s, ast.Slice):
@@ -555,7 +599,7 @@ class Interp:
             return self.eval(args[0], st, func, selfobj)
         if txt == 'len' and len(args) == 1:
             v = self.eval(args[0], st, func, selfobj)
-            if isinstance(v, (Buf, BufSlice, Bytes)):
+            if isinstance(v, (Buf, BufSlice, Bytes, Axis)):
                 return v.length
             if isinstance(v, Tup):
                 return C(len(v.elts))
@@ -598,6 +642,8 @@ class Interp:
                     return a if txt == 'min' else b
                 if T.nonneg(a - b):
                     return b if txt == 'min' else a
+                return MultiVal([a, b], [[('%s picks %s' % (txt, U(args[0])), True)],
+                                         [('%s picks %s' % (txt, U(args[0])), False)]])
             return Opaque(U(e))
         if last == 'zeros' and args:
             shp = self.eval(args[0], st, func, selfobj)
@@ -739,6 +785,8 @@ class Interp:
             elif isinstance(base, (Arr, ArrView)):
                 self.emit(st, 'arrstore', func, target, arr=base if isinstance(base, Arr) else base.arr,
                           index=idx, value=value)
+            elif isinstance(base, Opaque):
+                self.emit(st, 'opstore', func, target, base=U(target.value), index=idx, value=value)
 
     def run_body(self, body, states, func, selfobj):
         """-> list[Outcome]; states that fall off the end come back with kind 'fall'."""
@@ -810,6 +858,8 @@ class Interp:
                 return self.run_body(s.body, [st], func, selfobj)
             if t is False:
                 return self.run_body(s.orelse, [st], func, selfobj) if s.orelse else [Outcome(st, 'fall')]
+            if self._effect_free(s.body) and self._effect_free(s.orelse):
+                return [Outcome(st, 'fall')]      # diagnostics only: no need to fork
             a, b = st.fork(), st.fork()
             a.conds.append((U(s.test), True))
             b.conds.append((U(s.test), False))
@@ -852,6 +902,19 @@ class Interp:
                 if len(vs) == 2:
                     return vs[0], vs[1] - vs[0], enum, it
         return None
+
+    @staticmethod
+    def _effect_free(body):
+        for x in body:
+            if isinstance(x, ast.Pass):
+                continue
+            if isinstance(x, ast.Expr) and isinstance(x.value, ast.Call) and \
+                    U(x.value.func).split('.')[-1] in ('print', 'warn', 'progress_printer', 'echo'):
+                continue
+            if isinstance(x, ast.Expr) and isinstance(x.value, ast.Constant):
+                continue
+            return False
+        return True
 
     def for_loop(self, s, st, func, selfobj):
         T = self.T
@@ -900,6 +963,16 @@ def _first_name(t):
     if isinstance(t, (ast.Tuple, ast.List)) and t.elts:
         return _first_name(t.elts[-1])
     return U(t).replace(' ', '')
+
+
+class Packed:
+    """result of a struct codec: remembers the encoded value"""
+
+    def __init__(self, value, codec):
+        self.value, self.codec = value, codec
+
+    def __repr__(self):
+        return '%s(%r)' % (self.codec, self.value)
 
 
 class ClassVal:
